@@ -34,6 +34,7 @@
     Anything outside the fragment evaluates to [Stuck], which makes the
     equivalence proofs fail (fail closed). *)
 From Coq Require Import QArith Qround Qabs ZArith List Bool String.
+From Coq Require Import Ascii DecimalString.
 From Verde Require Import Lib.QExtra Model.Coordinates.
 Import ListNotations.
 Open Scope string_scope.
@@ -177,6 +178,7 @@ Definition binop_val (op : binop) (a b : val) : option val :=
       else None
   | VA l, _ => bc_l op b a
   | _, VA r => bc_r op a b
+  | VS x, VS y => match op with Add => Some (VS (x ++ y)) | _ => None end   (* str + str *)
   | _, _ => arith op a b
   end.
 
@@ -429,6 +431,28 @@ Fixpoint zipn (fuel : nat) (ls : list (list val)) : list val :=
 Fixpoint flatten_arr (v : val) : list val :=
   match v with VA l => flat_map flatten_arr l | x => [x] end.
 
+(** fmt.format(arg) for a format string with exactly one replacement field, the plain "{}", and no other
+    brace; [arg] already rendered by str() *)
+Fixpoint has_brace (s : string) : bool :=
+  match s with
+  | EmptyString => false
+  | String c r => Ascii.eqb c "{"%char || Ascii.eqb c "}"%char || has_brace r
+  end.
+Fixpoint format_one (fmt arg : string) : option string :=
+  match fmt with
+  | EmptyString => None
+  | String c r =>
+      if Ascii.eqb c "{"%char then
+        match r with
+        | String d r' => if Ascii.eqb d "}"%char && negb (has_brace r') then Some (arg ++ r') else None
+        | EmptyString => None
+        end
+      else if Ascii.eqb c "}"%char then None
+      else option_map (String c) (format_one r arg)
+  end.
+(** str(z) of a Python int *)
+Definition str_of_Z (z : Z) : string := NilZero.string_of_int (Z.to_int z).
+
 (** builtins of the fragment, on exact numbers *)
 Definition call (f : string) (args : list val) : option (option val) :=   (* None: stuck; Some None: raises *)
   let is := String.eqb f in
@@ -558,6 +582,12 @@ Definition call (f : string) (args : list val) : option (option val) :=   (* Non
     | [VO _ fs] => match lookup fs (String.substring 5 (String.length f - 5) f) with
                    | Some v => Some (Some v)
                    | None => None end
+    | _ => None
+    end
+  else if is "meth:format" then       (* "..{}..".format(x), x an int or a str *)
+    match args with
+    | [VS fmt; VZ z] => match format_one fmt (str_of_Z z) with Some r => Some (Some (VS r)) | None => None end
+    | [VS fmt; VS a] => match format_one fmt a with Some r => Some (Some (VS r)) | None => None end
     | _ => None
     end
   else if is "zip" then               (* zip(s1, .., sn): tuples up to the shortest sequence (rendered as a list: only iterated) *)
